@@ -1,17 +1,20 @@
 (* C18 — I/O faults are reported, never swallowed.
    Readers: when the scanner stops on an error (read failure at any offset, or a line too long to buffer) the
-   reader model returns an error, whatever tokens were delivered before (SubRip model; WebVTT/SSA have the same
-   check in the code and are exercised by the harness).  Writers: a writer is the list of Write calls it issues,
+   reader model returns an error, whatever tokens were delivered before (SubRip, WebVTT and SSA/ASS models).  Writers: a writer is the list of Write calls it issues,
    each checked; a destination failing before the end of the document makes the writer fail, and without a
-   fault every byte is handed over. *)
+   fault every byte is handed over (SubRip and WebVTT: one Write; SSA/ASS: up to three Writes - script info, styles,
+   events - modelled by write_ssa_chunks). *)
 From Coq Require Import List NArith Bool Arith.
 From Astisub Require Import Kit.Base Kit.Scan Kit.IOW Model.Srt Model.Vtt Proofs.SrtIOProofs Proofs.VttIOProofs.
+From Astisub Require Import Model.Ssa Proofs.SsaIOProofs.
 Import ListNotations.
 
 Theorem C18_read_srt_fault : forall ls, exists k, read_srt_lines ls true = Err k.
 Proof. exact read_srt_fault. Qed.
 Theorem C18_read_vtt_fault : forall ls, exists k, read_vtt_lines ls true = Err k.
 Proof. exact read_vtt_fault. Qed.
+Theorem C18_read_ssa_fault : forall ls, exists k, read_ssa_lines ls true = Err k.
+Proof. exact read_ssa_fault. Qed.
 
 Theorem C18_writes_fault : forall ws k, (k < total ws)%nat -> run_writes ws (fail_at k) 0 = Err EIO.
 Proof. exact writes_fault. Qed.
@@ -26,11 +29,19 @@ Theorem C18_write_vtt_fault : forall d so ro doc k, write_vtt d so ro = Ok doc -
 Proof. exact write_vtt_fault. Qed.
 Theorem C18_write_vtt_complete : forall d so ro doc, write_vtt d so ro = Ok doc -> write_vtt_to d so ro ok_dest = Ok (length doc).
 Proof. exact write_vtt_complete. Qed.
+Theorem C18_write_ssa_fault : forall d order doc k, write_ssa d order = Ok doc -> (k < length doc)%nat ->
+  write_ssa_to d order (fail_at k) = Err EIO.
+Proof. exact write_ssa_fault. Qed.
+Theorem C18_write_ssa_complete : forall d order doc, write_ssa d order = Ok doc -> write_ssa_to d order ok_dest = Ok (length doc).
+Proof. exact write_ssa_complete. Qed.
 (* a stream failing after k bytes under any delivery schedule: the readers return an error, not a shorter cue list *)
 Theorem C18_read_fault_at_offset : forall data k counts,
   (exists e, read_srt_lines (fst (scan_fail data k counts)) (snd (scan_fail data k counts)) = Err e) /\
   (exists e, read_vtt_lines (fst (scan_fail data k counts)) (snd (scan_fail data k counts)) = Err e).
 Proof. intros data k counts. cbn [scan_fail fst snd]. split; [apply read_srt_fault | apply read_vtt_fault]. Qed.
+Theorem C18_read_ssa_fault_at_offset : forall data k counts,
+  exists e, read_ssa_lines (fst (scan_fail data k counts)) (snd (scan_fail data k counts)) = Err e.
+Proof. exact read_ssa_fault_at_offset. Qed.
 
 Print Assumptions C18_write_vtt_fault.
 Print Assumptions C18_write_vtt_complete.
@@ -41,3 +52,7 @@ Print Assumptions C18_writes_complete.
 Print Assumptions C18_write_srt_fault.
 Print Assumptions C18_write_srt_complete.
 Print Assumptions C18_read_vtt_fault.
+Print Assumptions C18_read_ssa_fault.
+Print Assumptions C18_write_ssa_fault.
+Print Assumptions C18_write_ssa_complete.
+Print Assumptions C18_read_ssa_fault_at_offset.
